@@ -668,3 +668,119 @@ def name_clashes(case, ctx):
       exp = {c: set(t) for c, t in exp.items()}
     require(got == exp, lambda: f'{kind}: tree {got} != expected {exp}')
   ctx.note(labels=[kind, 'clash' if clash else 'legal'], nontrivial=d >= 1)
+
+
+# ----------------------------------------------------------------------------
+# Module.copy(): every copy of a template owns its variables
+class TInner(nn.Module):
+  width: int = 2
+  deep: bool = False
+
+  @nn.compact
+  def __call__(self, x):
+    y = nn.Dense(self.width, name='proj')(x)
+    if self.deep:
+      y = y + nn.Dense(self.width)(x)
+    return y
+
+
+class TBlock(nn.Module):
+  """The sub-layers are handed in as attributes (bare, in a list, in a dict)."""
+  inner: Any = None
+  extra: Any = None
+
+  @nn.compact
+  def __call__(self, x):
+    y = nn.tanh(self.inner(x))
+    for m in (self.extra if isinstance(self.extra, (list, tuple)) else
+              list(self.extra.values()) if isinstance(self.extra, dict) else
+              []):
+      y = y + 0.5 * m(x)
+    return y
+
+
+class TStack(nn.Module):
+  template: Any = None
+  depth: int = 2
+  named: bool = False
+
+  @nn.compact
+  def __call__(self, x):
+    for i in range(self.depth):
+      c = self.template.copy(name=f'c{i}') if self.named else \
+          self.template.copy()
+      x = c(x)
+    return x
+
+
+@clause('template_copies',
+        strategy=lambda: st.fixed_dictionaries({
+            'width': st.integers(1, 3), 'depth': st.integers(1, 3),
+            'deep': st.booleans(), 'extra': st.sampled_from(
+                ['none', 'list', 'dict']),
+            'named': st.booleans(),
+            'where': st.sampled_from(['compact', 'sequential']),
+            'seed': st.integers(0, 2**16)}),
+        quick=150, thorough=4000, quick_shards=6, thorough_shards=16,
+        shrink=False,
+        rule='1-3 copies (Module.copy, auto-named or named) of a template '
+        'block whose sub-layers are attributes (bare / list / dict), made '
+        'inside a compact parent or handed to nn.Sequential: the variable '
+        'tree has one subtree per copy with the block\'s full structure, init '
+        '/ apply / eval_shape agree, each copy applied on its own subtree '
+        'reproduces the parent\'s computation, and copies share no parameter; '
+        'non-trivial = >=2 copies')
+def template_copies(case, ctx):
+  w, n = case['width'], case['depth']
+  def make_block():
+    extra = None
+    if case['extra'] == 'list':
+      extra = [TInner(w), TInner(w, True)]
+    elif case['extra'] == 'dict':
+      extra = {'a': TInner(w)}
+    return TBlock(inner=TInner(w, case['deep']), extra=extra)
+  rng = np.random.default_rng(case['seed'])
+  x = jnp.asarray(rng.normal(size=(2, w)), jnp.float32)
+  key = jax.random.key(case['seed'])
+  blk = make_block()
+  if case['where'] == 'compact':
+    model = TStack(template=blk, depth=n, named=case['named'])
+    names = [f'c{i}' if case['named'] else f'TBlock_{i}' for i in range(n)]
+  else:
+    model = nn.Sequential([blk.copy() for _ in range(n)])
+    names = [f'layers_{i}' for i in range(n)]
+  with sut('init'):
+    y0, V = model.init_with_output(key, x)
+  P = unfreeze(V)['params']
+  with sut('standalone block init'):
+    Ps = unfreeze(make_block().init(key, x))['params']
+  one = shapes({'params': Ps})['params']
+  want = {(nm,) + tuple(pth): v for nm in names for pth, v in one.items()}
+  got = shapes({'params': P})['params']
+  require(got == want, lambda: f'variable tree of {n} copies ({case["where"]}'
+          f', extra={case["extra"]}) is {got}, expected one full subtree per '
+          f'copy: {want}')
+  with sut('apply / eval_shape'):
+    y1 = model.apply(V, x)
+    ab = jax.eval_shape(model.init, key, x)
+  require(np.allclose(np.asarray(y0), np.asarray(y1), rtol=1e-5, atol=1e-6),
+          'init and apply disagree')
+  sd = lambda t: jax.tree_util.tree_map(lambda l: (tuple(l.shape),
+                                                   str(l.dtype)), unfreeze(t))
+  require(sd(ab) == sd(V), 'eval_shape(init) tree differs')
+  h = x
+  alone = make_block()
+  for nm in names:
+    with sut('copy applied on its own subtree'):
+      h = alone.apply({'params': P[nm]}, h)
+  require(np.shape(h) == np.shape(y1) and np.allclose(
+      np.asarray(h), np.asarray(y1), rtol=1e-5, atol=1e-6),
+          'chaining the copies, each on its own subtree, does '
+          'not reproduce the parent\'s output')
+  if n >= 2:
+    ka = jax.tree_util.tree_leaves(P[names[0]])
+    kb = jax.tree_util.tree_leaves(P[names[1]])
+    require(not all(np.allclose(a, b) for a, b in zip(ka, kb) if np.ndim(a) == 2),
+            'two copies were initialised with identical kernels (shared state)')
+  ctx.note(labels=[case['where'], case['extra'], f'n{n}',
+                   'named' if case['named'] else 'auto'], nontrivial=n >= 2)
